@@ -71,6 +71,10 @@ func (s *server) CreateSchedule(c context.Context, r *pb.CreateScheduleRequest) 
 		return nil, status.Error(s.code(err.Code), err.Error())
 	}
 
+	if err := s.api.ValidatePromiseIdTemplate(r.PromiseId); err != nil {
+		return nil, status.Error(s.code(err.Code), err.Error())
+	}
+
 	var idempotencyKey *idempotency.Key
 	if r.IdempotencyKey != "" {
 		idempotencyKey = util.ToPointer(idempotency.Key(r.IdempotencyKey))
